@@ -156,6 +156,12 @@ def check(prop, tier):
     # bounded stand-ins (never counted as proved)
     st_results = standins.run_for(prop, tier, seed, REPO)
     for s in st_results:
+        for kn in s.get("known", []):
+            kid = (prop, s["name"], kn["name"])
+            if kid in known_ids:
+                known_lines.append(f"KNOWN-FINDING: property={prop} {known_ids[kid]['what']}")
+            else:
+                s.setdefault("violations", []).append(kn)
         for v in s.get("violations", []):
             violations.append((s["name"], {"name": v["name"], "kind": "standin", "loc": s["name"], "replay": v, "note": v.get("what", ""), "standin": True}))
         for e in s.get("errors", []):
